@@ -24,7 +24,7 @@ func main() {
 	env := pool.NewEnv(u)
 	for _, sc := range pool.Scenarios(true) {
 		for it := 0; it < iters; it++ {
-			im := env.NewImpl(false)
+			im := env.NewImpl(true) // production constructor of the pending container (newSimpleContainer): its own synchronisation is under test here
 			for _, op := range sc.Setup {
 				op.Apply(im)
 			}
